@@ -126,6 +126,10 @@ void run_case(Ctx& c) {
             }
             c.note("|ctl_store(ttl='%s'%s)", ttl_text.c_str(), absent ? ",absent" : "");
             std::size_t before = node.stored_chunks().size();
+            // (the same payload may be stored twice: then the id is already listed and the count does not grow)
+            const auto new_id = security::derive_chunk_id(std::span<const std::uint8_t>(payload));
+            bool listed_before = false;
+            for (auto& e : node.stored_chunks()) if (e.id == new_id) listed_before = true;
             vctl::Request req;
             req.command = "STORE";
             if (!absent) req.headers.push_back({"TTL", ttl_text});
@@ -142,7 +146,7 @@ void run_case(Ctx& c) {
                 if (numeric >= 0 && code != "ERR_STORE_TTL_OUT_OF_RANGE") c.fail("C02:control-store-wrong-error", "STORE TTL=" + ttl_text + " refused with " + code + " instead of ERR_STORE_TTL_OUT_OF_RANGE");
             }
             if (stored) {
-                if (after != before + 1) c.fail("C02:harness-error", "STORE ok but chunk count unchanged");
+                if (after != before + (listed_before ? 0 : 1)) c.fail("C02:harness-error", "STORE ok but the chunk count went from " + std::to_string(before) + " to " + std::to_string(after));
                 // find the new chunk: the response names it in the manifest; check every stored chunk's window instead
                 check_store_effects(security::derive_chunk_id(std::span<const std::uint8_t>(payload)), nullptr);
                 c.label("control_store_accepted");
